@@ -18,7 +18,6 @@ TInit ==
   /\ rf = 0 /\ disk = Hdr.h0 /\ resp = "ok"
   /\ last = Act("Init", 0, NoW, NoQ, {})
 
-RejU(why) == Rej(verdict.why \cup why)
 Harness(c) == RejU({c}) /\ UNCHANGED vars
 Pre == E.h0 = disk    \* nothing but the logged calls touches the tree
 
